@@ -39,8 +39,19 @@ def applyRedirs (cfg : Cfg) : Slots → List Redir → Slots × Bool
       let s' := if from_ = "1".toList then { s with s1 := some e } else { s with s2 := some e }
       applyRedirs cfg { s' with opened := s.opened ++ [(to, mode)] } rest
 
+/-- the reference reading of the words of a command: an unquoted word `<file` / `<<<word` (operator and operand
+written without a blank) is an input redirection, exactly like `< file` / `<<< word`; the last one wins -/
+def attachedFrom (cmd : Command) : Command :=
+  let isAtt := fun (t : Tok) => t.1 = [] ∧ ((t.2.take 3 = "<<<".toList ∧ t.2.length > 3) ∨ (t.2.take 1 = "<".toList ∧ t.2.take 2 ≠ "<<".toList ∧ t.2.length > 1))
+  match (cmd.tokens.filter (fun t => decide (isAtt t))).getLast? with
+  | none => cmd
+  | some t =>
+    let from_ : Tok := if t.2.take 3 = "<<<".toList then ("<<<".toList, t.2.drop 3) else ("<".toList, t.2.drop 1)
+    { cmd with tokens := cmd.tokens.filter (fun t => !decide (isAtt t)), redirectFrom := some from_ }
+
 /-- one stage: (how it ends, files opened, here-string feed) given its base slots -/
-def specStage (cfg : Cfg) (cmd : Command) (base : Slots) (hsPipe : Nat) (shellT : Table) (hsFails : Bool) : (ChildEnd × List (Str × Nat)) × Option (Nat × Str) :=
+def specStage (cfg : Cfg) (cmd0 : Command) (base : Slots) (hsPipe : Nat) (shellT : Table) (hsFails : Bool) : (ChildEnd × List (Str × Nat)) × Option (Nat × Str) :=
+  let cmd := attachedFrom cmd0
   let text := (cmd.redirectFrom.map (fun (x : Tok) => x.2)).getD []
   let s0? : Option Slots :=
     if cmd.isFrom then
@@ -69,7 +80,7 @@ def specStages (cfg : Cfg) (t : Table) (m np : Nat) (capture : Bool) (capOut cap
         s1 := if i < m then some { obj := .pipeW (np + i) } else if capture then some { obj := .pipeW capOut } else t 1,
         s2 := if i = m ∧ capture then some { obj := .pipeW capErr } else t 2 }
     let (ch, fed) := specStage cfg c base hs t (hsFail.contains i)
-    let (chs, feds, hs') := specStages cfg t m np capture capOut capErr hsFail (i + 1) rest (if c.isHere ∧ !hsFail.contains i then hs + 1 else hs)
+    let (chs, feds, hs') := specStages cfg t m np capture capOut capErr hsFail (i + 1) rest (if (attachedFrom c).isHere ∧ !hsFail.contains i then hs + 1 else hs)
     ((i, ch) :: chs, (match fed with | some f => [f] | none => []) ++ feds, hs')
 
 /-- what descriptor exhaustion did to this launch (reported by the launcher under test): the pipes between the
